@@ -163,6 +163,58 @@ Example C15_nonvacuous_survives :
     /\ (exists a m gh, cfind (0, 1) (chans s) = Some (Ready ex_g a m true true gh) /\ is_done (m_state m) true = false).
 Proof. vm_compute. eexists. split; [reflexivity|]. do 3 eexists. split; reflexivity. Qed.
 
+(** Preimages (Model/Prune.v, last section: blocks whose classification may need a preimage are
+    resolved against what the signer knows when it decodes them).  With htlcs_fulfilled writing
+    the node entry - the code as repaired - the signer's record of preimages, in memory and in
+    the store, is exactly what it was handed, after every history, restarts included. *)
+Theorem C15_preimages_durable :
+  forall (p : params) (h : N) (ops : list pop) (s : pnode),
+    prun true p (init_pnode h) ops = Ok s -> known s = given s /\ known_disk s = known s.
+Proof. exact preimages_durable. Qed.
+Print Assumptions C15_preimages_durable.
+
+(** The code before that repair ([fulfill_flush = false]: htlcs_fulfilled recorded the preimage
+    in memory only) violated the property.  Witness = the history that was replayed on the real
+    signer (harness `prune`, scripted incoming-htlc-preimage-then-restart): a channel funded by
+    the counterparty, the preimage of the HTLC they offer is handed over, restart, their
+    commitment confirms with the HTLC pending (now classified without the preimage), only our main
+    output is swept, forget, 100 blocks, heartbeat.  The channel is removed, although on the chain
+    as it really is (classified with the preimage that WAS handed over) the monitor is not done:
+    the HTLC output (1021, 1) is the node's to claim and unspent. *)
+Definition old_g : cfg := mkcfg 1010 0 [].
+Definition old_ops : list pop :=
+  [PLift (NewChannel (0, 3)); PLift (Setup (0, 3) true old_g); PFulfill 7; PLift Restart;
+   PAdd [mkptx 1010 [(3, 100)] 1 (PFixed NotCommitment)];
+   PAdd [mkptx 1021 [(1010, 0)] 3 (PNeeds 7 (Commitment (Some 0) [1]) (Commitment (Some 0) []))];
+   PAdd [mkptx 1030 [(1021, 0)] 1 (PFixed NotCommitment)];
+   PLift (Forget (0, 3))] ++ repeat (PAdd []) 100.
+Example C15_old_fulfill_not_persisted_refuted :
+  exists s s' m,
+    prun false ex_p (init_pnode 0) old_ops = Ok s
+    /\ ready_cfg (0, 3) old_g (pn s)
+    /\ pstep false ex_p s (PLift Heartbeat) = Ok (s', Done)
+    /\ cfind (0, 3) (chans (pn s')) = None
+    /\ In 7 (given s')
+    /\ run_adds old_g (init_mon old_g 0) (true_chain s') = Ok m
+    /\ is_done (m_state m) true = false
+    /\ is_closing_swept (m_state m) = false.
+Proof.
+  destruct (prun false ex_p (init_pnode 0) old_ops) as [s|] eqn:E; [|vm_compute in E; discriminate].
+  exists s. revert E. vm_compute. intros E. inversion E; subst. clear E.
+  do 2 eexists. split; [reflexivity|]. split; [do 5 eexists; reflexivity|].
+  vm_compute. repeat split; try reflexivity. left; reflexivity.
+Qed.
+
+(** the same history on the repaired code keeps the channel *)
+Example C15_fulfill_persisted_keeps :
+  exists s s', prun true ex_p (init_pnode 0) old_ops = Ok s
+    /\ pstep true ex_p s (PLift Heartbeat) = Ok (s', Done) /\ ready_cfg (0, 3) old_g (pn s').
+Proof.
+  destruct (prun true ex_p (init_pnode 0) old_ops) as [s|] eqn:E; [|vm_compute in E; discriminate].
+  exists s. revert E. vm_compute. intros E. inversion E; subst. clear E.
+  eexists. split; [reflexivity|]. split; [reflexivity|]. do 5 eexists. reflexivity.
+Qed.
+
 Check C15_prune_sound.
 Check C15_survives.
 Check C15_hwm_monotone.
